@@ -232,6 +232,18 @@ def simulate(shape, op):
             if op != "sizeof":
                 out.append(DV)
             return DV
+        if k == "idx":
+            # a named member "i" = Index: the running index of the enclosing repeater in parse and in build alike, whatever number the
+            # value handed to build carries there (a parsed list whose elements were reordered)
+            v = resolve("this._index", chain)
+            return v if isinstance(v, int) else None
+        if k == "depi":
+            n = cur.get("i", MISSING)
+            obs.append({"sid": "dep", "path": "this.i", "value": n if isinstance(n, int) else MISSING})
+            if isinstance(n, int) and not isinstance(n, bool) and op != "sizeof":
+                out.extend(bytes([0xd0 + n]) * n)
+                return None
+            raise Stop()
         if k == "rc0":
             # a named member "rc" = RawCopy around a member that build derives by itself with a FALSY result (Default(Byte, 0) given
             # nothing): what later siblings see under rc.value is that result, in build as in parse
@@ -333,6 +345,8 @@ def simulate(shape, op):
                     sc["a"] = v
                 if m[0] == "rc0" and op != "sizeof" and not sizing:
                     sc["rc"] = v
+                if m[0] == "idx" and op != "sizeof" and not sizing:
+                    sc["i"] = v
                 if m[0] == "rep" and op != "sizeof" and not sizing:
                     sc["r"] = v
             if k == "union" and len(node) > 2 and op == "parse":
@@ -389,6 +403,10 @@ def mk_construct(shape, Spy, log, sidc):
         return C.Rebuild(C.Byte, C.this._y)
     if k == "yu":
         return C.Byte
+    if k == "idx":
+        return C.Index
+    if k == "depi":
+        return C.Bytes(C.this.i)
     if k == "rc0":
         return C.RawCopy(C.Default(C.Byte, 0))
     if k == "deprc":
@@ -423,6 +441,8 @@ def mk_construct(shape, Spy, log, sidc):
                 nm = "a"
             elif m[0] == "rc0":
                 nm = "rc"
+            elif m[0] == "idx":
+                nm = "i"
             elif m[0] in ("rep", "fwdu", "yu"):
                 nm = {"rep": "r", "fwdu": "c", "yu": "_y"}[m[0]]
             else:
@@ -483,6 +503,10 @@ def build_value(shape, key=()):
         return None
     if k == "yu":
         return DV
+    if k == "idx":
+        return 7                               # a stale number: build derives the index by itself
+    if k == "depi":
+        return ("dep", "this.i")
     if k == "rc0":
         return {"value": None}
     if k == "deprc":
@@ -506,7 +530,7 @@ def build_value(shape, key=()):
                 continue                       # derived: not supplied
             if m[0] == "fwdu":
                 continue
-            d["x" if m[0] == "x" else {"arrd": "a", "rep": "r", "yu": "_y", "rc0": "rc"}.get(m[0], "m%d" % i)] = build_value(m, key + (i,))
+            d["x" if m[0] == "x" else {"arrd": "a", "rep": "r", "yu": "_y", "rc0": "rc", "idx": "i"}.get(m[0], "m%d" % i)] = build_value(m, key + (i,))
         if k == "focused":
             first = shape[1][0]
             return d["x" if first[0] == "x" else "m0"]
@@ -677,7 +701,8 @@ def run_shape(ctx, shape, Spy):
     except Exception as e:
         ctx.violation("parse-fails:%s:%s" % (type(e).__name__, opener_kinds(shape)), "parse of the model's bytes %s raised %s: %s" % (data.hex(), type(e).__name__, str(e)[:200]), case)
         return
-    if not compare(ctx, shape, "parse", list(log), wantp, case):
+    plog = list(log)
+    if not compare(ctx, shape, "parse", plog, wantp, case):
         return
     # ---- build (values carry the same numbers as the bytes)
     wantb, datab, completeb = results["build"]
@@ -693,6 +718,13 @@ def run_shape(ctx, shape, Spy):
                 return
             if not compare(ctx, shape, "build", list(log), wantb, case):
                 return
+            # what a finished Array / RepeatUntil leaves in _index is unspecified, but it is the same when parsing and when building
+            # (GreedyRange ends its parse on a failed extra iteration: not compared)
+            if "greedy" not in repr(shape) and len(plog) == len(log):
+                pi, bi = [g["index"] for g in plog], [g["index"] for g in log]
+                if pi != bi:
+                    ctx.violation("index:parse-vs-build:" + repeater_kinds(shape), "_index seen by the spies while parsing %r, while building %r" % (pi, bi), case)
+                    return
             if built != datab:
                 ctx.violation("dependent-layout-differs:build:" + opener_kinds(shape), "build emitted %s, the scope model expects %s" % (built.hex(), datab.hex()), case)
                 return
@@ -788,6 +820,11 @@ def enumerate_small():
             out.append([ok, [["arrd", 2], ["depa", i], ["spy"]]])
             out.append(["struct", [["x"], [ok, [["spy"], ["arrd", 3], ["depa", i], ["dep", "this._.x"]]]]])
             out.append(["array", 2, [ok, [["arrd", 2], ["depa", i]]], False])
+    # an Index member followed by a member sized from it, in every repeater (the value handed to build carries a stale number)
+    for rep in ("array", "greedy", "until"):
+        for ok in ("struct", "seq"):
+            out.append([rep, 3, ["struct", [["x"], [ok, [["idx"], ["depi"], ["spy"]]]]] if ok == "seq" else ["struct", [["x"], ["idx"], ["depi"], ["spy"]]], False])
+            out.append(["struct", [["x"], [rep, 2, ["struct", [["x"], ["idx"], ["struct", [["dep", "this._.i"] if False else ["spy"]]], ["depi"]]], False]]])
     # a RawCopy around a self-derived member whose built result is falsy, followed by a member sized from rc.value
     for ok in ("struct", "seq"):
         out.append([ok, [["rc0"], ["deprc"], ["spy"]]])
